@@ -41,6 +41,49 @@ class LenZero:
         return 0
 
 
+class EqTrue:
+    """compares equal to everything (like unittest.mock.ANY); __ne__ is the default inversion"""
+    __hash__ = object.__hash__
+
+    def __eq__(self, other):
+        return True
+
+
+class EqTrueNeTrue:
+    __hash__ = object.__hash__
+
+    def __eq__(self, other):
+        return True
+
+    def __ne__(self, other):
+        return True
+
+
+class EqFalse:
+    """equal to nothing, not even itself"""
+    __hash__ = object.__hash__
+
+    def __eq__(self, other):
+        return False
+
+    def __ne__(self, other):
+        return False
+
+
+class EqRaises:
+    """identity, not equality, must decide: comparing raises"""
+    __hash__ = object.__hash__
+
+    def __eq__(self, other):
+        raise RuntimeError("__eq__ called")
+
+    def __ne__(self, other):
+        raise RuntimeError("__ne__ called")
+
+
+HOSTILE = {"eqtrue": EqTrue, "eqtruene": EqTrueNeTrue, "eqfalse": EqFalse, "eqraise": EqRaises}
+
+
 # What stands for "a value" (a __conform__ / hook / custom __adapt__ / factory result).  The protocol
 # only distinguishes None from not-None, so falsy objects and tuples of every shape are adapters
 # like any other.  The three singletons ((), 0, '') are each used at most once per case: the k-th
@@ -57,11 +100,16 @@ FLAVOURS = [
     lambda v: ((Val(v), Val(v)),),
     lambda v: float("0.0"),
     lambda v: {},
+    lambda v: EqTrue(),
+    lambda v: EqTrueNeTrue(),
+    lambda v: EqFalse(),
+    lambda v: EqRaises(),
 ]
 
 
 def make_alt(code):
-    """alternate: 0 None, 1 an ordinary object, 2 a falsy list, 3 a pair, 4 a falsy float"""
+    """alternate: 0 None, 1 an ordinary object, 2 a falsy list, 3 a pair, 4 a falsy float,
+    5-8 objects with hostile __eq__ / __ne__, 9 unittest.mock.ANY"""
     if code == 0:
         return None
     if code == 2:
@@ -70,6 +118,17 @@ def make_alt(code):
         return (Val(-2), Val(-3))
     if code == 4:
         return float("0.0")
+    if code == 5:
+        return EqTrue()
+    if code == 6:
+        return EqTrueNeTrue()
+    if code == 7:
+        return EqFalse()
+    if code == 8:
+        return EqRaises()
+    if code == 9:
+        import unittest.mock
+        return unittest.mock.ANY
     return Val(-1)
 
 
@@ -421,6 +480,10 @@ def build_obj(case, I, ctx):
         ns["__bool__"] = lambda self: False
     elif of == "len0":
         ns["__len__"] = lambda self: 0
+    elif of in HOSTILE:
+        for nm in ("__eq__", "__ne__", "__hash__"):
+            if nm in HOSTILE[of].__dict__:
+                ns[nm] = HOSTILE[of].__dict__[nm]
     cls = type("Obj", (base,), ns)
     how = case.get("how", "implementer")
     if "__slots__" in ns and how in ("directly", "also"):
@@ -561,10 +624,16 @@ def run_instrumented(case):
         del ctx.log[:]
         del ctx.nlog[:]
         del ctx.nres[:]
+        # every call shape: obj / alternate positional or keyword, in either keyword order
+        shape = case.get("shape") or ("pk" if case.get("kw") else "pp")
         if not alt_given:
-            call = lambda: I(ob)
-        elif case.get("kw"):
+            call = (lambda: I(obj=ob)) if shape in ("kk", "kk_rev", "k") else (lambda: I(ob))
+        elif shape == "pk":
             call = lambda: I(ob, alternate=alt)
+        elif shape == "kk":
+            call = lambda: I(obj=ob, alternate=alt)
+        elif shape == "kk_rev":
+            call = lambda: I(alternate=alt, obj=ob)
         else:
             call = lambda: I(ob, alt)
         out = outcome(call, ctx, alt_given, alt)
